@@ -610,6 +610,16 @@ impl FrameDecoder {
     }
 }
 
+#[cfg(zstd_rs_verif)]
+impl FrameDecoder {
+    /// Verification hook: (cap, head, tail) of the output ring buffer, read-only.
+    pub fn verif_ring_state(&self) -> Option<(usize, usize, usize)> {
+        self.state
+            .as_ref()
+            .map(|s| s.decoder_scratch.buffer.verif_ring_state())
+    }
+}
+
 /// Read bytes from the decode_buffer that are no longer needed. While the frame is not yet finished
 /// this will retain window_size bytes, else it will drain it completely
 impl Read for FrameDecoder {
